@@ -235,6 +235,19 @@ def sortingLatency (s : ASet) (d : Nat) : Int :=
 
 def ASet.isAlive (s : ASet) (d : Nat) : Bool := s.entries.any (fun e => e.d == d)
 
+/-! ### histories of one set -/
+
+/-- what can happen to an `AliveDialerSet` after construction -/
+inductive SetEv where
+  | notify (d : Nat) (alive : Bool) (snap : Option Int)
+  | setPolicy (p : Policy) (snapAll : Nat → Option Int)
+
+def stepSet (s : ASet) : SetEv → ASet
+  | .notify d a sn => (notify s d a sn).1
+  | .setPolicy p sa => setPolicy s p sa
+
+def runSet (s : ASet) (h : List SetEv) : ASet := h.foldl stepSet s
+
 /-! ### executable forms of the headline invariants (printed by the driver, `inv=` field) -/
 
 /-- `dialerToIndex` is the inverse of `aliveEntries` -/
@@ -437,6 +450,10 @@ def select (rnd : Nat → Nat → Nat → Nat) (g : Group) (t : NetType) (strict
       | .error e => .error e
     else .error .noAlive
   | .error e => .error e
+
+/-- every health domain `SelectWithExclusionResult` may consult, in order -/
+def tried (g : Group) (t : NetType) (strict : Bool) : List NetType :=
+  chain t g.policy ++ (if strict then [] else chain t.flip g.policy)
 
 /-- the selection made by `chooseProxyDialer`: on "no alive" retry the other family, non-strict. -/
 def chooseSelect (rnd : Nat → Nat → Nat → Nat → Nat) (g : Group) (t : NetType) (strict : Bool)
